@@ -445,6 +445,15 @@ pub fn pt_brief<F: Fld + std::fmt::Debug>(p: &Pt<F>) -> String {
     }
 }
 
+/// A table buffer as a caller may legitimately hand it to the precomputation routines: already used,
+/// i.e. filled with stale non-identity points (the routines must overwrite every entry they rely on).
+pub fn scratch_table<G: Grp>(n: usize) -> Vec<G::Aff> {
+    let g = aff_c::<G>(&G::gen());
+    let mut h = g;
+    h.negate();
+    (0..n).map(|i| if i % 2 == 0 { g } else { h }).collect()
+}
+
 /// 256-bit scalar -> [u64; 4]
 pub fn scalar_limbs(k: &Z) -> [u64; 4] {
     let l = z_to_limbs(k, 4);
